@@ -348,32 +348,34 @@ def _zone_after(lines, zone):
 def reference_lines(main, bracket=True):
     """the in-place reference: one list of lines.
 
-    A pasted chunk starts in GLOBAL and the includer resumes its own zone afterwards.  The brackets that express this are
-    emitted only where they change something: no opening `.memzone GLOBAL` when the includer already is in GLOBAL, no
-    closing bracket when the chunk ends in the includer's zone anyway or when nothing of the includer follows - a
-    bracket is a (non-byte) line object of its own, and as the address-wise last object it would extend the image."""
-    annotate_zones(main)        # never trust stored annotations: the minimiser removes lines
+    A pasted chunk starts in GLOBAL and the includer resumes its own zone afterwards.  The `.memzone` brackets that
+    express this are emitted LAZILY: only immediately in front of a line that exists in both worlds and needs another
+    zone than the one the pasted text happens to be in.  A bracket is a (non-byte) line object of its own; emitted
+    eagerly at the end of a chunk it can become the address-wise last object of its zone and extend the image by one
+    fill byte (false alarms of soaks 777 and 779)."""
+    annotate_zones(main)        # kept for the users of it['zone']
+    out = []
+    cur = ['GLOBAL']            # zone the reference text is in at this point
 
-    def flat(f):
-        out = []
-        items = f['items']
-        for i, it in enumerate(items):
-            if it['t'] == 'line':
-                out.append(it['r'])
+    def flat(f, want):
+        # want: the zone the split world has selected at this point of file f
+        for it in f['items']:
+            if it['t'] == 'inc':
+                flat(it['file'], 'GLOBAL')        # an included file starts in GLOBAL; the includer's zone is kept
                 continue
-            chunk = flat(it['file'])
-            zone = it.get('zone', 'GLOBAL')
-            if not bracket or not chunk:
-                out.extend(chunk)
-                continue
-            if zone != 'GLOBAL':
-                out.append('  .memzone GLOBAL')
-            out.extend(chunk)
-            follows = any(x['t'] == 'inc' or x['r'].strip() for x in items[i + 1:])
-            if follows and _zone_after(chunk, 'GLOBAL') != zone:
-                out.append(f'  .memzone {zone}')
-        return out
-    return flat(main)
+            r = it['r']
+            t = r.strip()
+            if t and bracket:
+                nz = _zone_after([t], None)
+                if nz is not None:
+                    want = nz                     # the line selects a zone itself
+                    cur[0] = nz
+                elif cur[0] != want:
+                    out.append(f'  .memzone {want}')
+                    cur[0] = want
+            out.append(r)
+    flat(main, 'GLOBAL')
+    return out
 
 
 def all_files(main):
